@@ -87,9 +87,9 @@ def pair_cases_from_scope(rng, pairs, K):
     return out
 
 
-def pair_cases_sampled(ctx, rng, arcs, K, n_first, n_second, quota):
+def pair_cases_sampled(ctx, rng, arcs, K, n_second, quota):
     """Sample arc pairs from TLC's arc list, let TLC classify them (and supply x), keep the judged ones."""
-    firsts = [_flip(rng, e) for e in _stratified(rng, arcs, quota)][:n_first]
+    firsts = [_flip(rng, e) for e in _stratified(rng, arcs, quota)]
     reqs = []
     for e in firsts:
         others = [_flip(rng, f) for f in rng.sample(arcs, min(n_second, len(arcs)))]
@@ -125,6 +125,9 @@ def _groups(fails, nv):
     exact = sorted((c, v) for c, v in fails if v != nv and v != X.TILT_VARIANT)
     gen = sorted((c, v) for c, v in fails if v == nv)
     tilt = sorted((c, v) for c, v in fails if v == X.TILT_VARIANT)
+    if exact and gen and all(c == "Invariance" for c, _ in gen):
+        # the rotated replay itself is right: it differs from the base because the base is wrong
+        exact, gen = sorted(exact + gen), []
     return exact, gen, tilt
 
 
@@ -199,10 +202,11 @@ def run(ctx):
         raise Machinery("expected 624 arcs on the 26-direction lattice, TLC emitted %d" % len(arcs1))
     if thorough:
         _, arcs2, _ = X.scope(ctx, 2, stages=("T",), what="oracle laws on every arc and triple of |c|<=2 (98 directions); emit arcs")
-        X.scope(ctx, 2, KP=1, stages=("P",), first_canon=True, emit_arcs=False,
-                what="oracle laws on arc pairs: arcs of |c|<=2 (up to endpoint swap) x arcs of |c|<=1")
+        X.scope(ctx, 2, KP=1, stages=("P",), first_canon=True, emit_arcs=False, laws=True, pair_stride=16,
+                what="oracle laws on arc pairs: a fixed 1/16 of the arcs of |c|<=2 (up to endpoint swap) x every arc of |c|<=1")
         _, arcs3, _ = X.scope(ctx, 3, stages=(), first_canon=True, emit_classes=False,
-                              what="latitude laws on every arc of |c|<=3 (290 directions, up to endpoint swap); emit arcs")
+                              laws=[l for l in X.LAWS_A if l != "InvLatDominates"],
+                              what="latitude laws (all but dominance) on every arc of |c|<=3 (290 directions, up to endpoint swap); emit arcs")
         if len(arcs2) != 98 * 96:
             raise Machinery("expected 9408 arcs for |c|<=2, got %d" % len(arcs2))
     else:
@@ -220,14 +224,13 @@ def run(ctx):
     if thorough:
         m2 = member_cases(rng, arcs2, 2)
         l2 = lat_cases(rng, arcs2, 2)
-        quota2 = {"polar": 400, "meridian": 200, "equator": 100, "antimeridian": 400, "generic": 900}
-        x2, bp = pair_cases_sampled(ctx, rng, arcs2, 2, 2000, 100, quota2)
+        x2, bp = pair_cases_sampled(ctx, rng, arcs2, 2, 100, {"polar": 250, "meridian": 150, "equator": 100, "antimeridian": 300, "generic": 700})
         boundary_pairs += bp
-        quota3 = {"polar": 300, "meridian": 200, "equator": 100, "antimeridian": 400, "generic": 1000}
+        quota3 = {"polar": 150, "meridian": 100, "equator": 50, "antimeridian": 200, "generic": 500}
         s3 = [_flip(rng, e) for e in _stratified(rng, arcs3, quota3)]
         m3 = member_cases(rng, s3, 3)
         l3 = lat_cases(rng, [_flip(rng, e) for e in arcs3], 3)
-        x3, bp = pair_cases_sampled(ctx, rng, arcs3, 3, 1000, 100, quota3)
+        x3, bp = pair_cases_sampled(ctx, rng, arcs3, 3, 100, {"polar": 120, "meridian": 80, "equator": 50, "antimeridian": 150, "generic": 400})
         boundary_pairs += bp
         for c in l3 + x3:
             K_of[c["id"]] = 3
@@ -236,7 +239,7 @@ def run(ctx):
         s2 = [_flip(rng, e) for e in _stratified(rng, arcs2, quota2)]
         m2 = member_cases(rng, s2, 2)
         l2 = lat_cases(rng, [_flip(rng, e) for e in arcs2], 2)
-        x2, bp = pair_cases_sampled(ctx, rng, arcs2, 2, 250, 80, {"polar": 60, "meridian": 30, "equator": 20, "antimeridian": 50, "generic": 90})
+        x2, bp = pair_cases_sampled(ctx, rng, arcs2, 2, 80, {"polar": 60, "meridian": 30, "equator": 20, "antimeridian": 50, "generic": 90})
         boundary_pairs += bp
         m3, l3, x3 = [], [], []
     for c in l2 + x2:
@@ -364,7 +367,8 @@ def replay(path):
             # membership replays pad pidx with index 0 (the zero vector, never judged) to keep the tilt parity
             bad.setdefault(v[1], []).append(sorted(v[6]))
         for rec in recs:
-            print("%s  %s  impl=%s" % ("FAILS" if rec["id"] in bad else "holds", keys[rec["id"]], json.dumps(rec.get("r"))[:160]))
+            shown = [row[-1] for row in rec["r"]] + [rec["t"][-1]] if rec["kind"] == "M" else rec["r"]
+            print("%s  %s  impl(per variant)=%s" % ("FAILS" if rec["id"] in bad else "holds", keys[rec["id"]], json.dumps(shown)[:200]))
             if rec["id"] in bad:
                 print("    failed clauses (clause, variant): %s" % bad[rec["id"]])
         return 1 if bad else 0
